@@ -118,6 +118,9 @@ EMPTY_COMMENT       : ('#' '\r'? '\n')
                         ls.spaces = 0
                         ls.gotHTTPVerb=false
                         ls.linenum++;
+                        // a line that ends in a comment or in trailing blanks ends like any other line
+                        if (ls.gotView) { l.PushMode(SyslLexerVIEW_TRANSFORM) }
+                        if ls.blockTextLine > 0 { ls.blockTextLine-- }
                     }
                     -> channel(HIDDEN)
                     ;
@@ -131,6 +134,9 @@ EMPTY_LINE          : ([ \t]+ ( [\r\n] | EOF ))
                         ls.spaces = 0
                         ls.gotHTTPVerb = false
                         ls.linenum++
+                        // a line that ends in a comment or in trailing blanks ends like any other line
+                        if (ls.gotView) { l.PushMode(SyslLexerVIEW_TRANSFORM) }
+                        if ls.blockTextLine > 0 { ls.blockTextLine-- }
                     }
                     -> channel(HIDDEN)
                     ;
@@ -142,6 +148,9 @@ INDENTED_COMMENT    : ([ \t]+ '#' ~[\n]* ('\n' | EOF))
                         ls.spaces = 0
                         ls.gotHTTPVerb = false
                         ls.linenum++
+                        // a line that ends in a comment or in trailing blanks ends like any other line
+                        if (ls.gotView) { l.PushMode(SyslLexerVIEW_TRANSFORM) }
+                        if ls.blockTextLine > 0 { ls.blockTextLine-- }
                     }
                     -> channel(HIDDEN)
                     ;
